@@ -670,7 +670,9 @@ def replay_node_script(k, numsegs, badsegs, toks):
         info = {"waiting": [R._reqid(t[2]) for t in R.node._segment_requests], "retired": list(R.retired),
                 "active": None if act is None else (act.gen, act.segnum, bool(act._running)),
                 "unhandled": list(R.unhandled), "submitted": sorted(R.reqs), "cancelled": sorted(set(R.cancelled)),
-                "queued": len(R.queue)}
+                "queued": len(R.queue),
+                "outstanding": 0 if act is None or not act._running else sum(len(ss) for ss in act._shares_from_server.values()),
+                "nomore": act is not None and bool(act._no_more_shares), "unannounced": 0}
         return digs, info
     finally:
         R.close()
@@ -1101,7 +1103,15 @@ def _run_scenario(sc, data, out):
         files = g.share_files(si)
         # placement changes: copy a share to another server
         for (idx, target) in sc["copies"]:
-            (srv, shnum, path) = files[idx % len(files)]
+            if isinstance(idx, str):            # ["shN", "free"]: copy share number N to a server that holds no share
+                cands = [t for t in files if t[1] == int(idx[2:])]
+                free = [x for x in sorted(g.storage) if x not in [t[0] for t in files]]
+                if not cands or not free:
+                    continue
+                (srv, shnum, path) = cands[0]
+                target = free[0]
+            else:
+                (srv, shnum, path) = files[idx % len(files)]
             if target != srv and target in g.storage:
                 from allmydata.storage.server import storage_index_to_dir
                 d = os.path.join(g.storage[target].sharedir, storage_index_to_dir(si))
@@ -1590,6 +1600,9 @@ GRID_CORPUS = [
                                                    reads=[[[0, 100], [0, 100], [5, 5]], [[0, 100]]])),
     ("concurrent-same-segment-decode-failure", _sc(k=2, n=4, servers=5, size=200, crafted=[0],
                                                    reads=[[[0, 200], [0, 200]], [[0, 64]], [[70, 20]]])),
+    # seeded C46-e: a second copy of share 0 on another server, share 1 lost: < k distinct share numbers -> error, not a hang
+    ("duplicate-copy-too-few", _sc(k=2, n=2, servers=3, copies=[["sh0", "free"]], share_faults=[["sh1", "delete", 0]],
+                                   reads=[[[0, 100]], [[0, 100], [5, 5]]])),
     # fix 6853eb2: ciphertext hash check of segment 1 fails after block validation; later reads on the same node
     ("decode-failure-then-reads", _sc(k=2, n=4, servers=5, size=200, crafted=[1],
                                       reads=[[[0, 64]], [[64, 64]], [[64, 10]], [[0, 64]]])),
@@ -2002,3 +2015,285 @@ def defer_from_box(d, box):
     else:
         d.addBoth(d2.callback)
     return d2
+
+
+# ----------------------------------------------------------------------------- ShareFinder with fake servers
+
+class FinderRun:
+    """The real ShareFinder under a script (tokens of the `finder` line of drv_c03): fake servers whose get_buckets
+    Deferreds the script fires, fake overdue timers, the eventual-send queue owned by the script."""
+
+    def __init__(self, maxout, servers):
+        from twisted.internet import defer
+        from allmydata.immutable.downloader import finder as fm
+        self.fm = fm
+        self.calls = []
+        self.queue = []
+        self.reqs = {}          # req id -> (Deferred, server number)
+        self.req_of_server = {}
+        self.timers = {}        # handle id -> (handle, req token)
+        run = self
+
+        class _SS:
+            def __init__(self, num):
+                self.num = num
+
+            def get_buckets(self, si):
+                q = len(run.reqs)
+                d = defer.Deferred()
+                run.reqs[q] = (d, self.num)
+                run.req_of_server[self.num] = q
+                run.calls.append("send=%d.%d" % (self.num, q))
+                return d
+
+        class _Server:
+            def __init__(self, num):
+                self.num = num
+                self.ss = _SS(num)
+
+            def get_name(self):
+                return b"srv%d" % self.num
+
+            def get_storage_server(self):
+                return self.ss
+
+        class _Broker:
+            def get_servers_for_psi(self, si):
+                return [_Server(n) for n in servers]
+
+        class _Cap:
+            storage_index = b"s" * 16
+
+        class _Consumer:
+            def got_shares(self, shares):
+                pass
+
+            def no_more_shares(self):
+                pass
+
+            def get_num_segments(self):
+                return (1, False)
+
+        class _Ev:
+            def finished(self, *a):
+                pass
+
+            def error(self, *a):
+                pass
+
+        class _Status:
+            def add_dyhb_request(self, server, when):
+                return _Ev()
+
+        class _Timer:
+            def __init__(self, f, a):
+                self.f, self.a, self.active = f, a, True
+
+            def cancel(self):
+                self.active = False
+
+        class _Reactor:
+            def callLater(self, t, f, *a):
+                h = _Timer(f, a)
+                run.timer_list.append(h)
+                return h
+        self.timer_list = []
+        self.consumer = _Consumer()
+
+        def ev(f, *a, **k):
+            if getattr(f, "__self__", None) is self.consumer:
+                if f.__name__ == "got_shares":
+                    shs = a[0]
+                    self.calls.append("shares=%d:%s" % (shs[0][1], "+".join(str(x[0]) for x in sorted(shs))))
+                else:
+                    self.calls.append("nomore")
+            else:
+                self.queue.append((f, a, k))
+        self._saved = (fm.eventually, fm.reactor)
+        fm.eventually = ev
+        fm.reactor = _Reactor()
+        self.f = fm.ShareFinder(_Broker(), _Cap(), self.consumer, _Status(), None, max_outstanding_requests=maxout)
+        self.f._create_share = lambda shnum, bucket, server, rtt: (shnum, server.num)
+
+    def close(self):
+        self.fm.eventually, self.fm.reactor = self._saved
+
+    def _reqid(self, token):
+        return self.req_of_server.get(token.server.num, -1)
+
+    def apply(self, tok):
+        del self.calls[:]
+        p = tok.split(":")
+        f = self.f
+        try:
+            if p[0] == "h":
+                f.hungry()
+            elif p[0] == "l":
+                if self.queue:              # only queued turns run
+                    (fn, a, k) = self.queue.pop(0)
+                    fn(*a, **k)
+            elif p[0] == "r":
+                d, srv = self.reqs[int(p[1])]
+                d.callback({} if p[2] == "-" else {int(x): ("bucket", srv) for x in p[2].split(",")})
+            elif p[0] == "e":
+                d, srv = self.reqs[int(p[1])]
+                d.errback(RuntimeError("dyhb failed"))
+            elif p[0] == "o":
+                q = int(p[1])
+                for h in self.timer_list:
+                    if h.active and self._reqid(h.a[0]) == q:
+                        h.active = False
+                        h.f(*h.a)
+                        break
+            elif p[0] == "x":
+                f.stop()
+            else:
+                raise ValueError(tok)
+        except ValueError:
+            raise
+        except Exception as e:
+            self.calls.append("exc")
+        servers_left = "?"
+        pend = sorted(self._reqid(t) for t in f.pending_requests)
+        ovd = sorted(self._reqid(t) for t in f.overdue_requests)
+        tim = sorted(self._reqid(t) for t in f.overdue_timers)
+        started = getattr(f, "_servers", "unstarted")
+        return "|".join([",".join(self.calls) or "-", "1" if f.running else "0", "1" if f._hungry else "0",
+                         "1" if started is None else "0", show_ids(pend, sort=False), show_ids(ovd, sort=False),
+                         show_ids(tim, sort=False), str(len(self.queue))])
+
+
+def strip_finder_digest(model_digest):
+    """the model prints the remaining server list; the real iterator cannot be inspected"""
+    f = model_digest.split("|")
+    return "|".join(f[:3] + f[4:])
+
+
+def gen_finder_script(rng, max_events=120):
+    maxout = rng.choice([1, 2, 3, 10])
+    nservers = rng.choice([0, 1, 2, 3, 5, 8])
+    servers = list(range(nservers))
+    rng.shuffle(servers)
+    R = FinderRun(maxout, servers)
+    toks, digs = [], []
+
+    def do(tok):
+        toks.append(tok)
+        digs.append(R.apply(tok))
+    try:
+        answered = set()
+        hungry_calls = 0
+        do("h")
+        while len(toks) < max_events:
+            f = R.f
+            acts = []
+            if R.queue:
+                acts += ["loop"] * 5
+            open_reqs = [q for q in R.reqs if q not in answered]
+            if open_reqs:
+                acts += ["answer"] * 4
+                timers = [q for q in open_reqs if any(h.active and R._reqid(h.a[0]) == q for h in R.timer_list)]
+                if timers:
+                    acts += ["overdue"]
+            if not f._hungry and f.running and hungry_calls < 4:
+                acts += ["hungry"] * 2
+            elif f.running and hungry_calls < 4 and rng.random() < 0.1:
+                acts += ["hungry"]
+            if f.running and rng.random() < 0.02:
+                acts += ["stop"]
+            if not acts:
+                break
+            a = rng.choice(acts)
+            if a == "loop":
+                do("l")
+            elif a == "answer":
+                q = rng.choice(open_reqs)
+                answered.add(q)
+                r = rng.random()
+                if r < 0.25:
+                    do("e:%d" % q)
+                elif r < 0.55:
+                    do("r:%d:-" % q)
+                else:
+                    do("r:%d:%s" % (q, ",".join(str(x) for x in sorted(rng.sample(range(6), rng.choice([1, 1, 2, 3]))))))
+            elif a == "overdue":
+                do("o:%d" % rng.choice(timers))
+            elif a == "hungry":
+                hungry_calls += 1
+                do("h")
+            else:
+                do("x")
+        f = R.f
+        nomore_after_last_h = False
+        for t, d in zip(toks, digs):
+            if t == "h":
+                nomore_after_last_h = False
+            if "nomore" in d.split("|")[0].split(","):
+                nomore_after_last_h = True
+        info = {"quiescent": not R.queue and not f.pending_requests, "hungry": bool(f._hungry), "running": bool(f.running),
+                "told": nomore_after_last_h, "sent": [int(c.split("=")[1].split(".")[0]) for d in digs
+                                                      for c in d.split("|")[0].split(",") if c.startswith("send=")],
+                "servers": servers}
+    finally:
+        R.close()
+    return (maxout, servers), toks, digs, info
+
+
+def replay_finder_script(params, toks):
+    R = FinderRun(*params)
+    try:
+        return [R.apply(t) for t in toks]
+    finally:
+        R.close()
+
+
+FINDER_CORPUS = [
+    # seeded C03-a: the only query is overdue, not answered: the finder must keep waiting, not announce no_more_shares
+    ((2, [4]), ["h", "l", "l", "o:0", "l", "l", "r:0:1", "l"]),
+    # seeded C46-a: the last event that can wake the finder is a failed query
+    ((2, [4]), ["h", "l", "l", "e:0", "l"]),
+    ((1, [4, 7]), ["h", "l", "l", "e:0", "l", "l", "r:1:-", "l", "l"]),
+    # bounded parallelism, overdue promotion, shares then hungry again, stop
+    ((2, [4, 7, 9]), ["h", "l", "l", "l", "o:0", "l", "l", "e:1", "l", "r:2:0,3", "l", "h", "l", "r:0:-", "l", "x", "h", "l"]),
+]
+
+
+def finder_family(ctx, nrandom):
+    """fixed corpus + seeded scripts on the real ShareFinder; the statement monitor; returns (cases, impl, driver lines)"""
+    cases, impl, lines = [], [], []
+
+    def one(params, toks, digs, info=None, corpus=False):
+        case = {"kind": "finder", "params": [params[0], list(params[1])], "toks": toks}
+        cases.append(case)
+        impl.append(";".join(digs))
+        lines.append("finder %d %s %s" % (params[0], ",".join(map(str, params[1])) or "-", " ".join(toks)))
+        ctx.case(("FD", repr(params), tuple(toks)) if len(toks) > 2 else None)
+        told, hungry, running = False, False, True
+        sent = []
+        for t, d in zip(toks, digs):
+            f = d.split("|")
+            calls = f[0].split(",")
+            if t == "h":
+                told = False
+            for c in calls:
+                if c.startswith("send="):
+                    sent.append(int(c[5:].split(".")[0]))
+            if "nomore" in calls:
+                told = True
+                if f[4] != "-":
+                    ctx.violation("ShareFinder announced no_more_shares while a share query is still in flight (requests %s)"
+                                  % f[4], case, "finder-nomore-while-query-in-flight")
+        last = digs[-1].split("|") if digs else None
+        if last and last[1] == "1" and last[2] == "1" and last[7] == "0" and last[4] == "-" and not told:
+            ctx.violation("ShareFinder is hungry, nothing is queued, no query is in flight, and it never announced "
+                          "no_more_shares (nor delivered shares)", case, "finder-hungry-quiescent-without-answer")
+        if len(sent) != len(set(sent)) or sent != list(params[1])[:len(sent)]:
+            ctx.violation("ShareFinder did not ask the servers once each in permuted order: %s of %s" % (sent, params[1]),
+                          case, "finder-server-order")
+        ctx.count("finder-script:" + ("corpus" if corpus else "random"))
+    for (params, toks) in FINDER_CORPUS:
+        one(params, toks, replay_finder_script(params, toks), corpus=True)
+    for i in range(nrandom):
+        params, toks, digs, info = gen_finder_script(ctx.rng)
+        one(params, toks, digs, info)
+    return cases, impl, lines
